@@ -149,32 +149,57 @@ class DeclStream(Stream):
                 nc = len(e["comps"])
                 if nc >= 3 and rng.random() < 0.3:
                     e["mon"] = sorted(rng.sample(range(nc), rng.randint(1, nc - 2)))
+                if e["expo"] and rng.random() < 0.3:
+                    # one port carries TWO external names (declared before or after the others): both must be there
+                    c, k, _ = rng.choice(e["expo"])
+                    e["alias"] = [c, k, "alias0", rng.random() < 0.5]
                 out.append(e)
         return out
 
     def run(self, d):
         names = [x[2] for x in d["expo"]]
+        full = d
         try:
             sol, sts = netlib.build(d, shuffle=True)
+            if d.get("alias"):
+                c, k, al, first = d["alias"]
+                if first:
+                    # re-declare every other exposure after the alias (the last declaration of a NAME counts, and
+                    # several names per port are allowed)
+                    old = dict(sol.pin_mapping)
+                    sol.pin_mapping.clear()
+                    sol.map_pins({al: sts[c].pin[f"p{k}"]})
+                    sol.pin_mapping.update(old)
+                else:
+                    sol.map_pins({al: sts[c].pin[f"p{k}"]})
+                names = names + [al]
+                full = copy.deepcopy(d)
+                full["expo"] = list(d["expo"]) + [[c, k, al]]
             for i in d.get("mon", []):
                 sol.monitor_structure(sts[i], name=f"M{i}")
             mod = sol.solve()
+            if sorted(p.name for p in mod.pin_dic) != sorted(names):
+                raise ValueError("exposed names differ")
             obs = netlib.obs_matrix_lit(netlib.observe_expo(mod, names))
         except Exception:
             obs = "Raised"
-        return netlib.net_case_lit(d, obs)
+        return netlib.net_case_lit(full, obs)
 
     def nontrivial(self, d):
         return len(d["comps"]) >= 2 and len(d["conns"]) >= 1
 
     def classify(self, d):
-        return "c%d/l%d/%s%s" % (len(d["comps"]), len(d["conns"]), d["style"], "/mon" if d.get("mon") else "")
+        return "c%d/l%d/%s%s%s" % (len(d["comps"]), len(d["conns"]), d["style"], "/mon" if d.get("mon") else "",
+                                   "/alias" if d.get("alias") else "")
 
     def shrink(self, d):
         out = []
         for e in netlib.shrink_netlist(d):
             if len(e["comps"]) != len(d["comps"]):
                 e.pop("mon", None)          # component numbering changed
+                e.pop("alias", None)
+            elif e.get("alias") and [e["alias"][0], e["alias"][1]] not in [[x[0], x[1]] for x in e["expo"]]:
+                e.pop("alias", None)
             out.append(e)
         return out
 
